@@ -218,4 +218,12 @@ theorem single_section_ops :
           sumWire (run F m' (init window capacity) m).chunks ≤ capacity)) :=
   ⟨by decide, fun m' w c _ m _ => ⟨ring_is_suffix m' w c m, fun hw => ring_bounded m' w c m hw⟩⟩
 
+/-- The extractor saw none of the source shapes it knows to be dangerous for this property (a third disjunct in
+the grant condition, a wrapping sum, an `abs_diff` in-flight, a file gate other than `==`, a `record_sent` that is
+not a high-water mark, an eviction that is an `if` or subtracts the wrong length, a `covers` / `replay_from`
+comparison other than the documented one, a pending resume that is read without being taken, …:
+`extract/transfer.py`, `suspicious_forms`). Such a shape makes this theorem fail; it never makes the check
+fall back to the committed default facts silently. -/
+theorem no_suspicious_forms : Gen.transferSuspicious = [] := by decide
+
 end Repe.C13
